@@ -13,10 +13,13 @@ import (
 	"path/filepath"
 	"runtime"
 	"runtime/debug"
+	"runtime/pprof"
 	"sort"
 	"strconv"
 	"strings"
 	"sync"
+	"sync/atomic"
+	"syscall"
 	"time"
 
 	"verif/sim/props"
@@ -153,7 +156,29 @@ func (k knownFindings) match(prop, sig string) (string, bool) {
 // ---------------------------------------------------------------------------------------------
 // worker
 
+var (
+	curRun   atomic.Int64
+	curStart atomic.Int64
+)
+
+// startWatchdog ends the process with exit 2 when a single simulated run (including the replays
+// done while minimising) takes more than 90 s of wall time.
+func startWatchdog(prop string) {
+	go func() {
+		for {
+			time.Sleep(time.Second)
+			if st := curStart.Load(); st != 0 && time.Since(time.Unix(0, st)) > 90*time.Second {
+				fmt.Fprintf(os.Stderr, "verif: watchdog: run index %d of %s has been running for more than 90 s of wall time; goroutines:\n", curRun.Load(), prop)
+				pprof.Lookup("goroutine").WriteTo(os.Stderr, 1)
+				os.Exit(2)
+			}
+		}
+	}()
+}
+
 func execRun(p *props.Property, tape *simrt.Tape, o props.Opts) (out props.Outcome) {
+	curStart.Store(time.Now().UnixNano())
+	defer curStart.Store(0)
 	defer func() {
 		if r := recover(); r != nil {
 			out.Infra = &simrt.Failure{Kind: simrt.FailHarness, Msg: fmt.Sprint(r), Stack: string(debug.Stack())}
@@ -182,6 +207,12 @@ func cmdWorker(args []string) int {
 		return 2
 	}
 	debug.SetGCPercent(-1)
+	// guard rails: no memory limit exists in the sandbox, and a run that neither finishes nor hits the
+	// simulator's step budget must not hang the check - both end the worker with exit 2 (harness trouble)
+	var lim syscall.Rlimit
+	lim.Cur, lim.Max = 12<<30, 12<<30
+	syscall.Setrlimit(syscall.RLIMIT_AS, &lim)
+	startWatchdog(*propID)
 	known := loadKnown(*verifDir)
 	start := time.Now()
 	sum := WorkerSummary{Faults: map[string]int{}, Probes: map[string]int{}, Oracle: map[string]int{}}
@@ -217,6 +248,7 @@ func cmdWorker(args []string) int {
 		} else {
 			tape = simrt.NewTape(rs)
 		}
+		curRun.Store(int64(i))
 		out := execRun(p, tape, opts)
 		sum.Runs++
 		if sum.Runs%64 == 0 {
@@ -482,6 +514,7 @@ func cmdReplay(args []string) int {
 		return 2
 	}
 	debug.SetGCPercent(-1)
+	startWatchdog(rf.Property)
 	ok, out, _ := replayOnce(p, rf.Tape, rf.Violation.Signature, props.Opts{Tier: rf.Tier, KeepLog: true})
 	if *verbose {
 		for _, l := range out.Log {
